@@ -71,21 +71,22 @@ def generate(seed, tier="quick"):
     xr = sub(seed, "externals")
     n = 0
     for f in prog["files"]:
-        for k in range(xr.choice([0, 1, 1, 2])):
+        for k in range(0 if (seed % 10**6) % 3 == 0 else xr.choice([0, 1, 1, 2])):  # the run_inline executor has no storage
             n += 1
             sid = f"x{n}"
             f["sites"][sid] = {"op": "eq", "place": "direct", "arg": None, "prev": None}
             xr.choice(f["tests"])["events"].append({"t": "cmp", "eid": f"ex{n}", "site": sid, "vals": [c13.wrap(xr, c13.ext_value(xr))], "style": "rec"})
     frng = sub(seed, "fmt")
-    r = frng.random()
-    if r < 0.55:
-        fmt = {"kind": "black"}
-    elif r < 0.9:
+    # few workloads per run: the formatter party and the executor are assigned round-robin over the run index,
+    # so that every batch of ten sweeps black, a format-command, an absent formatter and the run_inline executor
+    i = seed % 10**6
+    kind = ["black", "cmd", "black", "cmd", "absent"][i % 5]
+    if kind == "cmd":
         fmt = {"kind": "cmd", "stub": "black", "mode": {"line_length": frng.choice([40, 88])}}
     else:
-        fmt = {"kind": "absent"}
+        fmt = {"kind": kind}
     return {"program": prog, "fmt": fmt, "flags": sub(seed, "flags").choice(["create,fix,trim", "create,fix", "create,fix,trim,update"]),
-            "old_external": sub(seed, "old").random() < 0.6, "inline": sub(seed, "inline").random() < 0.35, "max_points": 32 if tier == "quick" else 400, "early_points": 4 if tier == "quick" else 60}
+            "old_external": sub(seed, "old").random() < 0.6, "inline": (seed % 10**6) % 3 == 0, "max_points": 32 if tier == "quick" else 400, "early_points": 4 if tier == "quick" else 60}
 
 
 def ast_equal(a, b):
